@@ -409,15 +409,23 @@ class vDDDLists:
             dt_list = [dt_list]
         vDDD = []
         tzid = None
+        value = None
         for dt in dt_list:
             dt = vDDDTypes(dt)
             vDDD.append(dt)
             if 'TZID' in dt.params:
                 tzid = dt.params['TZID']
+            if 'VALUE' in dt.params:
+                # DATE or PERIOD instead of the default DATE-TIME
+                value = dt.params['VALUE']
 
         if tzid:
             # NOTE: no support for multiple timezones here!
             self.params = Parameters({'TZID': tzid})
+        if value:
+            if not hasattr(self, 'params'):
+                self.params = Parameters()
+            self.params['VALUE'] = value
         self.dts = vDDD
 
     def to_ical(self):
@@ -508,7 +516,13 @@ class vDDDTypes(TimeBase):
         else: # isinstance(dt, tuple)
             self.params = Parameters({'value': 'PERIOD'})
 
-        tzid = tzid_from_dt(dt) if isinstance(dt, (datetime, time)) else None
+        if isinstance(dt, tuple) and dt and isinstance(dt[0], datetime):
+            # a period is in the time zone of its start
+            tzid = tzid_from_dt(dt[0])
+        elif isinstance(dt, (datetime, time)):
+            tzid = tzid_from_dt(dt)
+        else:
+            tzid = None
         if tzid is not None and tzid != 'UTC':
             self.params.update({'TZID': tzid})
 
